@@ -1,7 +1,7 @@
 import SSV.Gen.C14
 /-
 C14 — lock-level model of `serverCollector.userCollector(username)` for ONE username: any number of
-threads execute the regenerated program `Gen.userCollector` statement by statement (each statement is one
+threads execute the regenerated program (and, as environment, snapshots take and release the read lock) `Gen.userCollector` statement by statement (each statement is one
 step; `sc.mu` is a reader/writer lock: `Lock` waits until there is neither a writer nor a reader, `RLock`
 until there is no writer). Collectors are object identities (`Nat`): `create` allocates a fresh one, `store`
 puts the thread's `uc` into the map. This is the level at which "create if absent" could go wrong
@@ -18,6 +18,8 @@ structure LShared where
   next : Nat
   readers : Nat
   writer : Bool
+  /-- how many of the read-lock holders are NOT callers of `userCollector` (snapshots iterating over `sc.ucs`) -/
+  ext : Nat := 0
 
 structure LThread where
   pc : Nat
@@ -47,6 +49,12 @@ structure LConfig where
 inductive LStepRel (prog : List LStep) : LConfig → LConfig → Prop where
   | mk (pre post : List LThread) (th th' : LThread) (sh sh' : LShared) :
       lstep prog sh th = some (sh', th') → LStepRel prog ⟨sh, pre ++ th :: post⟩ ⟨sh', pre ++ th' :: post⟩
+  /-- environment: a Snapshot / SnapshotAndReset takes the read lock (possible whenever there is no writer) -/
+  | envRLock (sh : LShared) (ths : List LThread) : sh.writer = false →
+      LStepRel prog ⟨sh, ths⟩ ⟨{ sh with readers := sh.readers + 1, ext := sh.ext + 1 }, ths⟩
+  /-- environment: a snapshot releases the read lock -/
+  | envRUnlock (sh : LShared) (ths : List LThread) : 0 < sh.ext →
+      LStepRel prog ⟨sh, ths⟩ ⟨{ sh with readers := sh.readers - 1, ext := sh.ext - 1 }, ths⟩
 
 inductive LReach (prog : List LStep) : LConfig → LConfig → Prop where
   | refl (c : LConfig) : LReach prog c c
@@ -54,7 +62,7 @@ inductive LReach (prog : List LStep) : LConfig → LConfig → Prop where
 
 /-- `n` threads about to call `userCollector(username)`; the map may or may not hold the user already -/
 def linit (entry : Option Nat) (n : Nat) : LConfig :=
-  ⟨{ entry := entry, next := (match entry with | some r => r + 1 | none => 0), readers := 0, writer := false },
+  ⟨{ entry := entry, next := (match entry with | some r => r + 1 | none => 0), readers := 0, writer := false, ext := 0 },
    List.replicate n { pc := 0, uc := none }⟩
 
 end SSV.StatsLock
